@@ -10,19 +10,24 @@ A  TLC exhaustive on TrustChain (Allowed = Forced = {}): every hierarchy of dept
    form checked equal to the walk on every world), InstanceIndependent, ConstructorRefuses, every
    validation terminates (liveness under fairness). Vacuity: action coverage + witnesses; every
    named deviation yields a TLC counterexample.
-B  state graph walked on the real lvs_validator: each world MATERIALISED (real P-256 / RSA / Ed25519
-   keys, real certificates via new_cert, compiled LVS schema, one legacy NDNApp + virtual face per
-   instance, harness producer answering certificate Interests as the world says); after every
-   stimulus: constructor outcome, certificate Interests on each face, verdicts compared.
-C  random certificate graphs (up to 8 certificates, arbitrary key locators incl. loops, 3 roots),
-   4 instances, 10 packets, recorded and judged by TrustChainTrace.
+B  state graph walked on the real lvs_validator: each world MATERIALISED (real keys, real certificates
+   via new_cert, compiled LVS schema, one legacy NDNApp + virtual face per instance, harness producer
+   answering certificate Interests as the world says); after every stimulus: constructor outcome,
+   certificate Interests on each face, verdicts compared.
+   Key algorithms (W.alg: key -> P-224 / P-256 / P-384 / P-521 / RSA-1024 / -2048 / -3072 / Ed25519): the
+   worlds WAlgQ / WAlgT of the spec assign an algorithm to each ROLE (anchor, intermediate certificate, packet
+   signer) - every pair of (role, algorithm) in quick, every triple in thorough, plus a bad link under every
+   algorithm of its signer; in all other graphs the executor draws an assignment per world (the spec's
+   transitions do not read W.alg but for the Ed25519 deviation).
+C  random certificate graphs (up to 8 certificates, arbitrary key locators incl. loops, 3 roots, a random
+   algorithm per key), 4 instances, 10 packets, recorded and judged by TrustChainTrace.
 """
 import json, os
 
 from harness import tlc, graph, tlaval
 from harness.tlaval import seq
 from harness.regkit import Walker, env_labels, fast_dump
-from harness.trustkit import Scenario, KeyPool
+from harness.trustkit import Scenario, KeyPool, FAST, world_keys
 
 ENV = {'NewValidator', 'Validate', 'FetchReply', 'Heal'}
 INTERNAL = ['CheckSchema', 'UseAnchor', 'UseCache', 'Fetch', 'VerifySig', 'Verdict']
@@ -56,7 +61,7 @@ def world_py(w):
     """parsed TLC value of W -> plain dict for the executor / JSON"""
     return {'schema': sorted([list(x) for x in w['schema']]), 'roots': sorted(w['roots']), 'shape': dict(w['shape']),
             'certs': {k: dict(v) for k, v in dict(w['certs']).items()}, 'pkts': {k: dict(v) for k, v in dict(w['pkts']).items()},
-            'kt': w['kt'], 'sch': w['sch'], 'twin': dict(w['twin']) if w.get('twin') else {},
+            'alg': dict(w['alg']) if w.get('alg') else {}, 'sch': w['sch'], 'twin': dict(w['twin']) if w.get('twin') else {},
             'replay': dict(w['replay']) if w.get('replay') else {},
             'covers': {k: sorted(v) for k, v in dict(w['covers']).items()}}
 
@@ -76,8 +81,8 @@ def report(ctx, devs, bad, reported, what, robj):
 
 class Run:
     """applies stimuli to a Scenario; tracks validations that diverged (the spec records them in `out`)."""
-    def __init__(self, world, insts, kt, pool, cache, slots=None, same_app=False):
-        self.sc = Scenario(world, insts, kt, pool, cache, slots=slots, same_app=same_app)
+    def __init__(self, world, insts, pool, cache, slots=None, same_app=False):
+        self.sc = Scenario(world, insts, pool, cache, slots=slots, same_app=same_app)
         self.diverged = []
 
     def apply(self, act, args):
@@ -104,13 +109,37 @@ class Run:
         self.sc.close()
 
 
-def walk(ctx, g, w, init, labels, kt, pool, cache, tag, learn=None):
+# at most this many keys of a slow-to-generate algorithm in a drawn assignment
+MAX_DRAWN = {'rsa2048': 2, 'rsa3072': 1}
+
+
+def draw_algs(rng, keys, algs, p_uniform=0.3):
+    """an assignment key -> algorithm: one algorithm for all keys, or one drawn per key (anchor, intermediate
+    certificates and packet signers of different types)"""
+    if rng.random() < p_uniform:
+        a = rng.choice([x for x in algs if x not in MAX_DRAWN])
+        return {k: a for k in keys}
+    out, used = {}, {}
+    for k in keys:
+        a = rng.choice(algs)
+        if used.get(a, 0) >= MAX_DRAWN.get(a, 1000):
+            a = rng.choice([x for x in algs if x not in MAX_DRAWN])
+        used[a] = used.get(a, 0) + 1
+        out[k] = a
+    return out
+
+
+def walk(ctx, g, w, init, labels, algs, pool, cache, tag, learn=None):
+    """algs: None = the world's own assignment W.alg; a dict = the executor's assignment for this world"""
     world = world_py(g.state[init]['W'])
-    world['kt'] = kt if g.state[init]['W']['kt'] != 'ed' else 'ed'
+    if algs is not None and not world['alg']:
+        world['alg'] = dict(algs)
+    world['alg'] = {k: world['alg'].get(k, 'p256') for k in world_keys(world)}
     insts = sorted(g.state[init]['inst'])
     slots = sorted(g.state[init]['val'])
     same_app = sorted(g.state[init]['wire']) == ['app']
-    run = Run(world, insts, world['kt'], pool, cache, slots=slots, same_app=same_app)
+    run = Run(world, insts, pool, cache, slots=slots, same_app=same_app)
+    kt = json.dumps(world['alg'], sort_keys=True)
     reported = set()
     done = []
     try:
@@ -129,8 +158,8 @@ def walk(ctx, g, w, init, labels, kt, pool, cache, tag, learn=None):
             if raised:
                 # a validator must answer True or False; whatever it raises is a violation of its own
                 ctx.violation('C14/lvs_validator/%s/raised:%s' % (act, raised[0][2][4:]),
-                              'world %s (kt=%s): validating %s on %s raised %s instead of returning a verdict; history %s' % (
-                                  json.dumps(dict(g.state[init]['W'].get('q', {}))), world['kt'], raised[0][1], raised[0][0],
+                              'world %s (key algorithms %s): validating %s on %s raised %s instead of returning a verdict; history %s' % (
+                                  json.dumps(dict(g.state[init]['W'].get('q', {}))), kt, raised[0][1], raised[0][0],
                                   raised[0][2][4:], json.dumps(done)), robj)
                 return len(done)
             cand = w.step(belief, act, args)
@@ -142,14 +171,14 @@ def walk(ctx, g, w, init, labels, kt, pool, cache, tag, learn=None):
                     'verdict' if all(proj(g.state[t])[1] != obs[1] for t in cand) else 'constructor'
                 q = dict(g.state[init]['W'].get('q', {}))
                 ctx.violation('C14/lvs_validator/%s/%s/unexplained' % (act, fld),
-                              'world %s (kt=%s): after %s%s the implementation shows %s; the specification allows only %s' % (
-                                  json.dumps(q), world['kt'], act, args, pobs, exp), robj)
+                              'world %s (key algorithms %s): after %s%s the implementation shows %s; the specification allows only %s' % (
+                                  json.dumps(q), kt, act, args, pobs, exp), robj)
                 return len(done)
             belief = m
             devs = Walker.necessary(g, belief, 'dev')
             bad = Walker.necessary(g, belief, 'bad')
-            report(ctx, devs, bad, reported, 'world %s kt=%s history %s' % (
-                json.dumps(dict(g.state[init]['W'].get('q', {}))), world['kt'], json.dumps(done)), robj)
+            report(ctx, devs, bad, reported, 'world %s key algorithms %s history %s' % (
+                json.dumps(dict(g.state[init]['W'].get('q', {}))), kt, json.dumps(done)), robj)
             if learn is not None:
                 learn['has'] |= devs
                 learn['hasnot'] |= Walker.necessary(g, belief, 'nodev')
@@ -163,7 +192,10 @@ def walk(ctx, g, w, init, labels, kt, pool, cache, tag, learn=None):
 
 
 def stage_b_many(ctx, specs, pool, cache, learn=None):
-    """specs: [(name, constants, key types, max_paths)]; the state graphs are produced side by side, then walked one by one"""
+    """specs: [(name, constants, key algorithms, max_paths)]; the state graphs are produced side by side, then walked one by one.
+    key algorithms: None = the assignment W.alg of the spec's world; a list = the executor draws, once per world of the
+    graph, an assignment key -> algorithm from that list (TrustChain.tla: no transition reads W.alg but for the
+    Ed25519 deviation, so the list has "ed" only when that deviation is known to be absent)"""
     from concurrent.futures import ThreadPoolExecutor
 
     def dump(spec):
@@ -177,6 +209,7 @@ def stage_b_many(ctx, specs, pool, cache, learn=None):
 
 
 def stage_b(ctx, name, g, pool, cache, kts, max_paths=None, learn=None):
+    drawn = {}
     ctx.add_tlc('TrustChain graph %s (%d edges)' % (name, g.n_edges), g.tlc)
     w = Walker(g, ENV, proj)
     paths = graph.edge_cover_paths(g, max_len=60, max_paths=max_paths, rng=ctx.rng)
@@ -188,8 +221,14 @@ def stage_b(ctx, name, g, pool, cache, kts, max_paths=None, learn=None):
         if key in seen or not labels:
             continue
         seen.add(key)
-        kt = kts[n % len(kts)]
-        k = walk(ctx, g, w, init, labels, kt, pool, cache, name, learn)
+        if kts is None:
+            algs = None
+        else:
+            if init not in drawn:
+                drawn[init] = draw_algs(ctx.rng, world_keys(world_py(g.state[init]['W'])), kts)
+            algs = drawn[init]
+        kt = algs if algs is not None else dict(g.state[init]['W']['alg'] or {})
+        k = walk(ctx, g, w, init, labels, algs, pool, cache, name, learn)
         n += 1
         ctx.traces += 1
         ctx.evaluations += k
@@ -209,7 +248,7 @@ STRICT = [['c1', 'root'], ['c2', 'c1'], ['c3', 'c2'], ['d1', 'root'], ['d2', 'c1
 PEER = STRICT + [['c1', 'c1'], ['c1', 'c2'], ['c1', 'c3'], ['c1', 'x'], ['c2', 'root'], ['c3', 'root'], ['x', 'root']]
 
 
-def random_world(rng):
+def random_world(rng, algs=None):
     sch = rng.choice(['strict'] * 5 + ['peer'] * 3 + ['two', 'twin'])
     rel = {'strict': STRICT, 'peer': PEER, 'two': STRICT + [['r1', 'oproot']], 'twin': STRICT + [['e1', 'root']]}[sch]
     signer_shapes = {}
@@ -259,7 +298,7 @@ def random_world(rng):
         elif y < 0.16:
             certs[n]['kl'] = 'none'
         elif y < 0.20:
-            certs[n]['sig'] = rng.choice(['hmac', 'unknownsig', 'hmacpub', 'digestkl', 'wrongtype'])
+            certs[n]['sig'] = rng.choice(['hmac', 'unknownsig', 'hmacpub', 'digestkl', 'wrongtype', 'wrongcurve'])
     # a second certificate of the key name of C1 / C2 (other issuer component): forged, or not retrievable
     twin = {}
     for base in ('C1', 'C2'):
@@ -283,7 +322,7 @@ def random_world(rng):
         elif y < 0.18:
             pkts[p] = {'kl': 'none', 'sig': rng.choice(['digest', pkts[p]['sig']])}
         elif y < 0.24:
-            pkts[p]['sig'] = rng.choice(['hmac', 'unknownsig', 'hmacpub', 'digestkl', 'wrongtype'])   # right certificate, no valid signature
+            pkts[p]['sig'] = rng.choice(['hmac', 'unknownsig', 'hmacpub', 'digestkl', 'wrongtype', 'wrongcurve'])   # right certificate, no valid signature
         elif pkts[p]['kl'] + 'b' in twin and y < 0.5:
             pkts[p]['kl'] += 'b'                  # signed by the same key, names the other certificate of that key name
     replay = {}
@@ -292,22 +331,24 @@ def random_world(rng):
         shape['P1r'] = shape['P1']
         pkts['P1r'] = {'kl': pkts['P1']['kl'], 'sig': 'replay'}
         replay['P1r'] = 'P1'
-        if pkts['P1']['sig'] in ('forged', 'digest', 'hmac', 'unknownsig', 'hmacpub', 'digestkl', 'wrongtype'):
+        if pkts['P1']['sig'] in ('forged', 'digest', 'hmac', 'unknownsig', 'hmacpub', 'digestkl', 'wrongtype', 'wrongcurve'):
             pkts['P1']['sig'] = 'k' + (pkts['P1']['kl'] if pkts['P1']['kl'] != 'Z' else 'C1')
     rts = {'two': ['root', 'oproot'], 'twin': ['root', 'root2']}.get(sch, ['root'])
     covers = {'root': ['root', 'root2'] if sch == 'twin' else ['root'], 'oproot': ['oproot']}
-    return {'schema': rel, 'roots': rts, 'covers': covers, 'twin': twin, 'replay': replay, 'shape': shape, 'certs': certs, 'pkts': pkts,
-            'kt': 'ec', 'sch': sch}
+    world = {'schema': rel, 'roots': rts, 'covers': covers, 'twin': twin, 'replay': replay, 'shape': shape, 'certs': certs, 'pkts': pkts,
+             'sch': sch}
+    # every key has its own algorithm: roots, intermediate certificates and packet signers of different types
+    world['alg'] = draw_algs(rng, world_keys(world), algs or FAST)
+    return world
 
 
 SLOTS6 = ['v1', 'v1b', 'v2', 'v2b', 'v3', 'v4']
 
 
-def record(world, rng, pool, kt, same_app=False):
+def record(world, rng, pool, same_app=False):
     """4 instances (on 4 applications, or all on one); v1 and v2 may run two validations at once"""
     world = dict(world)
-    world['kt'] = kt
-    run = Run(world, INSTS4, kt, pool, None, slots=SLOTS6, same_app=same_app)
+    run = Run(world, INSTS4, pool, None, slots=SLOTS6, same_app=same_app)
     sc = run.sc
     ev = []
     try:
@@ -466,6 +507,8 @@ def stage_a(ctx):
     # termination (liveness) on a smaller configuration
     big.append(('liveness %s, 2 validations' % ctx.pick('selected worlds', 'depth<=3'), consts(INSTS2, 2, ctx.pick('WOrd', 'W3'), anchors='MCAnchorsGood'),
                 ['TypeOK'], ['Terminates'], False, True))
+    # key algorithms by role (anchor / intermediate certificate / packet signer): the verdict is that of the chain
+    big.append(('key algorithms by role', consts(['v1'], 1, ctx.pick('WAlgQ', 'WAlgT'), anchors='MCAnchorsAlg'), INVS, [], False, False))
     # the declarative ChainExists equals the walk on every world (no instances: initial states only)
     big.append(('ChainDefsAgree', consts([], 0, 'W4'), ['ChainDefsAgree'], [], False, False))
     jobs = []
@@ -491,11 +534,12 @@ def stage_a(ctx):
                     raise tlc.MachineryError('vacuous: action %s never taken' % a)
     small = []
     for wname in ('W_AcceptDeep', 'W_CacheHit', 'W_Refused', 'W_RejectOtherAnchor', 'W_TwoInFlight', 'W_HealedAccept',
-                  'W_TwoRootsAccept', 'W_TwoRootsRefuse', 'W_SameInstanceTwice'):
+                  'W_TwoRootsAccept', 'W_TwoRootsRefuse', 'W_SameInstanceTwice', 'W_AcceptMixedAlgs', 'W_RejectBigKeyLink'):
         wp = os.path.join(tlc.BUILD, 'TrustChain_w_%s.cfg' % wname)
         tlc.write_cfg(wp, constants=consts(INSTS2, 2, 'WHeal', anchors='MCAnchorsGood', maxheal=1) if wname == 'W_HealedAccept' else
                       consts(INSTS2, 1, 'W2R', anchors='MCAnchors2') if wname.startswith('W_TwoRoots') else
                       consts(['v1'], 2, 'WClean', anchors='MCAnchorsGood', slots=['v1', 'v1b']) if wname == 'W_SameInstanceTwice' else
+                      consts(['v1'], 1, 'WAlgQ', anchors='MCAnchorsAlg') if wname in ('W_AcceptMixedAlgs', 'W_RejectBigKeyLink') else
                       consts(INSTS2, 2, 'W3'),
                       invariants=[wname])
         small.append(('witness', wname, wp))
@@ -529,6 +573,7 @@ def run(ctx):
                        '(asserted for every pair of names of every materialised world)',
                        'certificate validity periods and revocation are outside the property']
     pool = KeyPool()
+    pool.prefetch({'rsa2048': 3} if ctx.quick else {'rsa2048': 4, 'rsa3072': 4})
     cache = {}
     t0 = time.perf_counter()
     a_thread, a_err = None, []
@@ -548,9 +593,9 @@ def run(ctx):
     forced = ([], ALL_DEVS)
     if 'B' in ctx.stages or 'C' in ctx.stages:
         learn = {'has': set(), 'hasnot': set()}
-        stage_b_many(ctx, [('learn-cache', consts(INSTS2, 2, 'WClean', ALL_DEVS, anchors='MCAnchorsGood'), ['ec'], ctx.pick(80, 400)),
-                           ('learn-loop', consts(['v1'], 1, 'WLoop', ALL_DEVS, anchors='MCAnchorsGood'), ['ec'], None),
-                           ('learn-ed', consts(['v1'], 1, 'WEd', ALL_DEVS, anchors='MCAnchorsGood'), ['ed'], None)],
+        stage_b_many(ctx, [('learn-cache', consts(INSTS2, 2, 'WClean', ALL_DEVS, anchors='MCAnchorsGood'), ['p256'], ctx.pick(80, 400)),
+                           ('learn-loop', consts(['v1'], 1, 'WLoop', ALL_DEVS, anchors='MCAnchorsGood'), ['p256'], None),
+                           ('learn-ed', consts(['v1'], 1, 'WEd', ALL_DEVS, anchors='MCAnchorsGood'), None, None)],
                      pool, cache, learn)
         if learn['has'] & learn['hasnot']:
             ctx.violation('C14/lvs_validator/inconsistent-deviation', 'the code shows and does not show %s' % sorted(
@@ -559,38 +604,41 @@ def run(ctx):
         ctx.note('deviations of TrustChain.tla the code under test has: %s; not decided: %s' % forced)
     if 'B' in ctx.stages:
         has, unk = forced
-        kts = ['ec'] * 9 + ['rsa'] if ctx.quick else ['ec'] * 5 + ['rsa']
+        # algorithms the executor draws from where the spec's world leaves them open
+        kts = [a for a in FAST if a != 'ed' or not (has or unk)] + ['rsa2048'] + ([] if ctx.quick else ['rsa3072'])
         stage_b_many(ctx, [
+            # key algorithms by role: anchor / intermediate certificate / packet signer (assignment from the spec's worlds)
+            ('keyalgs', consts(['v1'], 1, ctx.pick('WAlgQ', 'WAlgT'), unk, has, anchors='MCAnchorsAlg'), None, None),
             # every world (depth, deviation, link) x every packet, one instance anchored at RA: all paths
             ('links', consts(['v1'], 1, ctx.pick('W3', 'W4'), unk, has, anchors='MCAnchorsGood'), kts, None),
             # ... and with both instances, good and bad anchors
             ('main', consts(INSTS2, ctx.pick(1, 2), ctx.pick('W2', 'W4'), unk, has), kts, ctx.pick(80, 8000)),
             # orders / interleavings of up to 3 validations by two instances on a few worlds
-            ('orders', consts(INSTS2, ctx.pick(2, 3), 'WOrd', unk, has, anchors='MCAnchorsGood'), ['ec'], ctx.pick(80, 5000)),
+            ('orders', consts(INSTS2, ctx.pick(2, 3), 'WOrd', unk, has, anchors='MCAnchorsGood'), kts, ctx.pick(80, 5000)),
             # fetch fault, Heal, then the same / another packet of the chain again, on the same and on the other instance
-            ('heal', consts(INSTS2, ctx.pick(2, 3), 'WHeal', unk, has, anchors='MCAnchorsGood', maxheal=1), ['ec'], ctx.pick(100, 4000)),
+            ('heal', consts(INSTS2, ctx.pick(2, 3), 'WHeal', unk, has, anchors='MCAnchorsGood', maxheal=1), kts, ctx.pick(100, 4000)),
             # two certificates of one key name (one good, one forged / not retrievable), packets naming each, both orders
-            ('twincert', consts(['v1'], 2, 'WTwin', unk, has, anchors='MCAnchorsGood'), ['ec'], None),
+            ('twincert', consts(['v1'], 2, 'WTwin', unk, has, anchors='MCAnchorsGood'), kts, None),
             # ... the same worlds (also: a forgery re-using the signature value of a genuine packet / certificate) with a
             # second, fresh instance
-            ('history2', consts(INSTS2, 2, 'WTwin', unk, has, anchors='MCAnchorsGood'), ['ec'], ctx.pick(100, 3000)),
+            ('history2', consts(INSTS2, 2, 'WTwin', unk, has, anchors='MCAnchorsGood'), kts, ctx.pick(100, 3000)),
             # schemas with two roots of trust: anchors matching one root only / both
-            ('roots', consts(INSTS2, 1, 'W2R', unk, has, anchors='MCAnchors2'), ['ec'], ctx.pick(40, 400)),
+            ('roots', consts(INSTS2, 1, 'W2R', unk, has, anchors='MCAnchors2'), kts, ctx.pick(40, 400)),
             # two validations in progress at once on ONE instance (chains that share / do not share certificates,
             # fetches answered in every order)
-            ('overlap', consts(['v1'], 2, 'WOrd', unk, has, anchors='MCAnchorsGood', slots=['v1', 'v1b']), ['ec'], ctx.pick(150, 4000)),
+            ('overlap', consts(['v1'], 2, 'WOrd', unk, has, anchors='MCAnchorsGood', slots=['v1', 'v1b']), kts, ctx.pick(150, 4000)),
             # two validator instances (anchors RA / RB) built on ONE application
-            ('oneapp', consts(INSTS2, 2, 'WOrd', unk, has, anchors='MCAnchorsGood', same_app=True), ['ec'], ctx.pick(150, 4000)),
-            ('ed25519', consts(INSTS2, 2, 'WEd', unk, has, anchors='MCAnchorsGood'), ['ed'], ctx.pick(30, 400))], pool, cache)
+            ('oneapp', consts(INSTS2, 2, 'WOrd', unk, has, anchors='MCAnchorsGood', same_app=True), kts, ctx.pick(150, 4000)),
+            ('ed25519', consts(INSTS2, 2, 'WEd', unk, has, anchors='MCAnchorsGood'), None, ctx.pick(30, 400))], pool, cache)
         ctx.note('stage B wall %.0fs (incl. learning)' % (time.time() - t1))
     t2 = time.time()
     if 'C' in ctx.stages:
         n = ctx.pick(50, 1500)
         recs = []
         for i in range(n):
-            world = random_world(ctx.rng)
-            kt = 'rsa' if i % 25 == 7 else 'ec'
-            rec, errs, bg = record(world, ctx.rng, pool, kt, same_app=(i % 3 == 2))
+            has, unk = forced
+            world = random_world(ctx.rng, [a for a in FAST if a != 'ed' or not (has or unk)] + ['rsa2048'] + ([] if ctx.quick else ['rsa3072']))
+            rec, errs, bg = record(world, ctx.rng, pool, same_app=(i % 3 == 2))
             if errs:
                 ctx.violation('C14/lvs_validator/executor-error', errs[0], {'kind': 'trace', 'rec': rec})
             for o in rec['ev'][-1]['post']['out']:
@@ -621,7 +669,7 @@ def replay(ctx, path):
         obj = json.load(f)
     pool = KeyPool()
     if obj.get('kind') == 'path':
-        run_ = Run(obj['world'], obj['insts'], obj['world']['kt'], pool, None, slots=obj.get('slots'), same_app=obj.get('same_app', False))
+        run_ = Run(obj['world'], obj['insts'], pool, None, slots=obj.get('slots'), same_app=obj.get('same_app', False))
         try:
             for lab in obj['labels']:
                 run_.apply(lab[0], lab[1:])
